@@ -48,3 +48,11 @@ Theorem C09_rev0_accept_shape : skel_noFlowControlReceiver_accept =
   ["call ingestMu.Lock"; "defer call ingestMu.Unlock"; "select"; "recv closed"; "end"; "select"; "send ch"; "recv closed"; "end"].
 Proof. exact noFlowControlReceiver_accept_shape. Qed.
 Print Assumptions C09_rev0_accept_shape.
+
+(* ---- the server's side of one stream against ANY peer (Rpc.v): whatever frames the serve loop is
+   handed for the id, in whatever order, what the server emits for it conforms, with at most one close ---- *)
+From GT Require Import Rpc RpcProofs RpcSystem.
+Theorem C09_server_stream_conforms_against_any_peer : forall strict ls v em,
+  vrun strict v_init ls = Some (v, em) -> gs_run em <> GsBad /\ count_close em <= 1.
+Proof. exact server_stream_conforms_against_any_peer. Qed.
+Print Assumptions C09_server_stream_conforms_against_any_peer.
